@@ -369,7 +369,9 @@ def draw_lik_spec(rng, n_dim, family=None, blob=None, prior=None,
     if vectorized is None:
         vectorized = rng.random() < 0.4
     # physical box
-    if family == 'wrap' or rng.random() < 0.5:
+    # (with the unit box an in-place prior is the identity and modifying the
+    # argument is invisible, so that prior never gets the unit box)
+    if family == 'wrap' or (rng.random() < 0.35 and prior != 'fn_inplace'):
         lo, hi = [0.0] * n_dim, [1.0] * n_dim
     else:
         lo = [rng.choice([-5.0, -1.0, 0.0, 2.0]) for _ in range(n_dim)]
